@@ -23,7 +23,7 @@ def runner(sc):
     res.times = []          # per op: [virtual time the call was made, virtual time it returned or raised]
     try:
         cl = S.Stack(sim, 'j1939-21', sc.get('max_cmdt', 8))
-        sv = S.Stack(sim, 'j1939-21', sc.get('max_cmdt', 8))
+        sv = S.Stack(sim, 'j1939-21', sc.get('max_cmdt_server', sc.get('max_cmdt', 8)))
         cca = cl.add_ca(0x1111, C_ADDR, True)
         sca = sv.add_ca(0x2222, S_ADDR, True)
         mc = j1939.MemoryAccess(cca)
